@@ -682,6 +682,29 @@ def generate():
         if "AsyncAND(" not in ast.unparse(P.find_def(P.load(rel), qual)):
             raise P.Untranslatable("%s no longer waits for its children with AsyncAND" % qual)
 
+    # ---- Broker.makeGift / remote_decgift: the gift table entry holds the proxy itself (a strong reference) next to the
+    # count, from makeGift until the count returns to zero
+    mg = P.find_def(bro, "Broker.makeGift")
+    stores = [n for n in ast.walk(mg) if isinstance(n, ast.Assign) and len(n.targets) == 1
+              and ast.unparse(n.targets[0]).startswith("self.myGifts[")]
+    if len(stores) != 2 or not all(isinstance(n.value, ast.Tuple) for n in stores):
+        raise P.Untranslatable("makeGift: expected two stores of a tuple into self.myGifts[...]")
+    has = [any(isinstance(x, ast.Name) and x.id == "rref" for x in n.value.elts) for n in stores]
+    if all(has):
+        pins = "true"
+    elif not any(has):
+        pins = "false"
+    else:
+        raise P.Untranslatable("makeGift: only one of the two gift-table stores holds the proxy")
+    counts = [ast.unparse(n.value.elts[-1]) for n in stores]
+    if sorted(counts) != ["1", "count + 1"]:
+        raise P.Untranslatable("makeGift: unexpected gift counts %r" % (counts,))
+    dg = ast.unparse(P.find_def(bro, "Broker.remote_decgift"))
+    if "gift_count -= count" not in dg or "if gift_count == 0:" not in dg or "del self.myGifts[" not in dg:
+        raise P.Untranslatable("remote_decgift: unexpected shape")
+    out.append("(* makeGift stores the proxy in the gift table entry: %s *)\nDefinition gift_table_pins_proxy : bool := %s."
+               % (", ".join(ast.unparse(n.value) for n in stores), pins))
+
     # ---- finish(): which tables are emptied on connection loss
     fi = P.find_def(bro, "Broker.finish")
     cleared = [ast.unparse(s.targets[0])[5:] for s in fi.body if isinstance(s, ast.Assign) and len(s.targets) == 1
